@@ -61,8 +61,8 @@ def score_ballots(draw, cands, L, k):
 
 
 @st.composite
-def case(draw):
-    rule = draw(st.sampled_from(E.RANKING_RULES + E.SCORE_RULES[:5]))
+def case(draw, rules=None):
+    rule = draw(st.sampled_from(rules or (E.RANKING_RULES + E.SCORE_RULES[:5])))
     tie_rich = draw(st.integers(0, 2)) == 0
     cfg = {}
     if rule in E.SCORE_RULES:
